@@ -5,10 +5,14 @@ import jsonschema
 m = json.load(open("/verif/MANIFEST.json"))
 jsonschema.validate(m, json.load(open("/root/.vp/MANIFEST.schema.json")))
 es = json.load(open("/root/.vp/EVIDENCE.schema.json"))
-for f in sorted(glob.glob("/verif/evidence/*.json")):
-    jsonschema.validate(json.load(open(f)), es)
-    print("ok", f)
 claimed = {c["property_id"] for c in m["checks"]}
+for f in sorted(glob.glob("/verif/evidence/*.json")):
+    if f.split("/")[-1][:-5] not in claimed:
+        continue
+    jsonschema.validate(json.load(open(f)), es)
+    ev = json.load(open(f))
+    assert ev["coverage"]["obligations"] == ev["coverage"]["discharged"], f
+    print("ok", f, ev["coverage"]["obligations"], "theorems", ev["coverage"]["evaluations"], "cases")
 na = {c["property_id"] for c in m.get("not_applicable", [])}
 allp = {json.loads(l)["id"] for l in open("/verif/properties.jsonl")}
 assert claimed | na == allp and not (claimed & na), (claimed, na)
